@@ -100,30 +100,43 @@ where
 /// Ligero (univariate) end to end against the algebraic model: the coefficient matrix, the opened vectors, the queried
 /// columns, the verifier's decision on the honest proof, on a false value and on mutated proofs (the proof "as sent"
 /// and the verifier's own transcript are handed to the model).
-fn ligflow<L, P>(c: &Case, out: &mut Out, poly: P, z: P::Point)
+fn ligflow<L, P>(c: &Case, out: &mut Out, poly: P, z: P::Point, pp: L::LinCodePCParams, rho_inv: Option<usize>)
 where
     P: ark_poly::Polynomial<Fr> + Clone,
     P::Point: Clone,
-    L: LinearEncode<Fr, MTConfig, P, ColH<Fr>, LinCodePCParams = ark_poly_commit::linear_codes::LigeroPCParams<Fr, MTConfig, ColH<Fr>>>,
+    L: LinearEncode<Fr, MTConfig, P, ColH<Fr>>,
+    L::LinCodePCParams: Clone,
 {
-    use ark_poly_commit::linear_codes::LinearCodePCS;
+    use ark_poly_commit::linear_codes::{LinCodeParametersInfo, LinearCodePCS};
     use ark_poly_commit::LabeledPolynomial;
     type PCS<L, P> = LinearCodePCS<L, Fr, P, MTConfig, ColH<Fr>>;
-    let pp = crate::schemes::ligero_params(c).expect("lig parameters");
-    let lig = c.usizes("lig");
     let (ck, vk) = (pp.clone(), pp.clone());
+    out.input("wf", &[if ck.check_well_formedness() { "1".into() } else { "0".into() }]);
     let lp = LabeledPolynomial::new("p".into(), poly.clone(), None, None);
     let cmr = guard_any(|| PCS::<L, P>::commit(&ck, [&lp], None));
     out.obs1("commit", "S", cmr.class());
     let (cm, st) = match cmr.ok() { Some(x) => x, None => return };
     let (n_rows, n_cols, n_ext) = lh::commitment_metadata(cm[0].commitment());
-    out.obs("dims", "N", &[n_rows.to_string(), n_cols.to_string(), n_ext.to_string()]);
     out.input("n_rows", &[n_rows.to_string()]);
     out.input("n_cols", &[n_cols.to_string()]);
     out.input("n_ext", &[n_ext.to_string()]);
-    let dom = GeneralEvaluationDomain::<Fr>::new(n_cols * lig[1]).unwrap();
-    out.input("omega", &[f_to_str(&dom.group_gen())]);
-    out.obs1("dom_size", "N", dom.size().to_string());
+    match rho_inv {
+        Some(rho) => {
+            // Reed-Solomon: the FFT domain the rows are evaluated on
+            let dom = GeneralEvaluationDomain::<Fr>::new(n_cols * rho).unwrap();
+            out.input("omega", &[f_to_str(&dom.group_gen())]);
+            out.obs1("dom_size", "N", dom.size().to_string());
+        }
+        None => {
+            // any other linear code: its generator matrix, the images of the unit messages under the library's encoder
+            for i in 0..n_cols {
+                let mut e = vec![Fr::zero(); n_cols];
+                e[i] = Fr::one();
+                let g = L::encode(&e, &ck).unwrap();
+                out.input(&format!("G.{}", i), &fs_to_strs(&g));
+            }
+        }
+    }
     // the vector the library arranges into the matrix (coefficients with trailing zeros stripped / evaluations) and the point as a vector
     out.input("coeffs", &{ let v = fs_to_strs(&L::poly_to_vec(&poly)); if v.is_empty() { vec!["-".into()] } else { v } });
     out.input("point_vec", &{ let v = fs_to_strs(&L::point_to_vec(z.clone())); if v.is_empty() { vec!["-".into()] } else { v } });
@@ -190,8 +203,25 @@ pub fn run(c: &Case, out: &mut Out) {
             use crate::pc::Adapter;
             use crate::schemes::{LigeroMLA, LigeroUniA};
             match c.str1("scheme") {
-                "ligero_ml" => { let nv = Some(c.usize1("num_vars")); ligflow::<MultilinearLigero<Fr, MTConfig, SparseMultilinearExtension<Fr>, ColH<Fr>>, SparseMultilinearExtension<Fr>>(c, out, LigeroMLA::make_poly(c.get("poly"), nv), LigeroMLA::make_point(c.get("pt"))) }
-                _ => ligflow::<UnivariateLigero<Fr, MTConfig, UniPoly, ColH<Fr>>, UniPoly>(c, out, LigeroUniA::make_poly(c.get("poly"), None), LigeroUniA::make_point(c.get("pt"))),
+                "ligero_ml" => {
+                    let nv = Some(c.usize1("num_vars"));
+                    let pp = crate::schemes::ligero_params(c).expect("lig parameters");
+                    let rho = c.usizes("lig")[1];
+                    ligflow::<MultilinearLigero<Fr, MTConfig, SparseMultilinearExtension<Fr>, ColH<Fr>>, SparseMultilinearExtension<Fr>>(c, out, LigeroMLA::make_poly(c.get("poly"), nv), LigeroMLA::make_point(c.get("pt")), pp, Some(rho))
+                }
+                "brakedown_ml" => {
+                    use crate::schemes::BrakedownMLA;
+                    use ark_poly_commit::PolynomialCommitment;
+                    let nv = Some(c.usize1("num_vars"));
+                    let mut rng = CountingRng::new(c.u64_1("seed"));
+                    let pp = match guard_any(|| BrakedownMLPC::setup(1, nv, &mut rng)).ok() { Some(p) => p, None => { out.obs1("commit", "S", "setup-refused".into()); return; } };
+                    ligflow::<MultilinearBrakedown<Fr, MTConfig, SparseMultilinearExtension<Fr>, ColH<Fr>>, SparseMultilinearExtension<Fr>>(c, out, BrakedownMLA::make_poly(c.get("poly"), nv), BrakedownMLA::make_point(c.get("pt")), pp, None)
+                }
+                _ => {
+                    let pp = crate::schemes::ligero_params(c).expect("lig parameters");
+                    let rho = c.usizes("lig")[1];
+                    ligflow::<UnivariateLigero<Fr, MTConfig, UniPoly, ColH<Fr>>, UniPoly>(c, out, LigeroUniA::make_poly(c.get("poly"), None), LigeroUniA::make_point(c.get("pt")), pp, Some(rho))
+                }
             }
         }
         "proofshape" => {
